@@ -1,9 +1,580 @@
 package main
 
-func (p *Prog) extractInputs(r *Result, uses []string) (map[string]interface{}, bool) {
+// Counterexample replay: the solver's model of a failed obligation is turned into concrete inputs, the
+// real function is executed on them (in-package test injected with go test -overlay; nothing is written
+// to /repo), and the observed behaviour is compared with the behaviour the model predicts.  A violation
+// is "confirmed" when the real code panics where a safety obligation failed, or produces exactly the
+// outputs under which the solver showed the postcondition / frame condition false.
+
+import (
+	"bytes"
+	"encoding/json"
+	"fmt"
+	"go/types"
+	"math/big"
+	"os"
+	"os/exec"
+	"path/filepath"
+	"sort"
+	"strings"
+	"time"
+)
+
+const replayCells = 96
+
+type gvReq struct {
+	name string
+	t    *Term
+}
+
+// modelValues re-solves the obligation and evaluates the requested terms in the model.
+func (p *Prog) modelValues(ob *Obligation, uses []string, reqs []gvReq, secs int, small []*Term) (map[string]*big.Int, string, bool) {
+	var extra []*Term
+	for _, r := range reqs {
+		extra = append(extra, r.t)
+	}
+	savedA := ob.Assume
+	ob.Assume = append(append([]*Term{}, savedA...), small...)
+	txt, names := p.smtTextGV(ob, uses, extra)
+	ob.Assume = savedA
+	var sb strings.Builder
+	sb.WriteString("(set-option :produce-models true)\n")
+	sb.WriteString(txt)
+	sb.WriteString("(check-sat)\n(get-value (")
+	for _, n := range names {
+		sb.WriteString(n + " ")
+	}
+	sb.WriteString("))\n")
+	f, err := os.CreateTemp("", "gvc-model-*.smt2")
+	if err != nil {
+		return nil, "", false
+	}
+	defer os.Remove(f.Name())
+	f.WriteString(sb.String())
+	f.Close()
+	for _, sv := range [][]string{{"z3-new", "-smt2", fmt.Sprintf("-T:%d", secs), f.Name()}, {"cvc5", "--lang=smt2", "--produce-models", fmt.Sprintf("--tlimit=%d", secs*1000), f.Name()}, {"z3", "-smt2", fmt.Sprintf("-T:%d", secs), f.Name()}} {
+		cmd := exec.Command(sv[0], sv[1:]...)
+		var out bytes.Buffer
+		cmd.Stdout = &out
+		cmd.Stderr = &out
+		done := make(chan struct{})
+		go func() { cmd.Run(); close(done) }()
+		select {
+		case <-done:
+		case <-time.After(time.Duration(secs+5) * time.Second):
+			if cmd.Process != nil {
+				cmd.Process.Kill()
+			}
+			<-done
+		}
+		s := out.String()
+		if !strings.HasPrefix(strings.TrimSpace(s), "sat") {
+			continue
+		}
+		rest := s[strings.Index(s, "sat")+3:]
+		xs, err := ParseSExps(rest)
+		if err != nil || len(xs) == 0 {
+			continue
+		}
+		vals := map[string]*big.Int{}
+		for _, pr := range xs[0].List {
+			if len(pr.List) != 2 {
+				continue
+			}
+			v, ok := parseSMTValue(pr.List[1])
+			if ok {
+				vals[pr.List[0].Atom] = v
+			}
+		}
+		res := map[string]*big.Int{}
+		for i, r := range reqs {
+			if v, ok := vals[names[i]]; ok {
+				res[r.name] = v
+			}
+		}
+		return res, sv[0], true
+	}
+	return nil, "", false
+}
+
+func parseSMTValue(x *SExp) (*big.Int, bool) {
+	if !x.IsL {
+		a := x.Atom
+		switch {
+		case a == "true":
+			return big.NewInt(1), true
+		case a == "false":
+			return big.NewInt(0), true
+		case strings.HasPrefix(a, "#x"):
+			v, ok := new(big.Int).SetString(a[2:], 16)
+			return v, ok
+		case strings.HasPrefix(a, "#b"):
+			v, ok := new(big.Int).SetString(a[2:], 2)
+			return v, ok
+		default:
+			v, ok := new(big.Int).SetString(a, 10)
+			return v, ok
+		}
+	}
+	if x.Head() == "-" && len(x.List) == 2 {
+		v, ok := parseSMTValue(x.List[1])
+		if ok {
+			return new(big.Int).Neg(v), true
+		}
+	}
+	if x.Head() == "_" && len(x.List) == 3 && strings.HasPrefix(x.List[1].Atom, "bv") {
+		v, ok := new(big.Int).SetString(x.List[1].Atom[2:], 10)
+		return v, ok
+	}
 	return nil, false
 }
 
+// smtTextGV renders the obligation plus named definitions of extra terms.
+func (p *Prog) smtTextGV(ob *Obligation, uses []string, extra []*Term) (string, []string) {
+	// reuse smtTextX by temporarily appending trivially true assertions that mention the terms
+	saved := ob.Assume
+	var names []string
+	var defs []*Term
+	for i, t := range extra {
+		n := fmt.Sprintf("gv!%d", i)
+		names = append(names, n)
+		defs = append(defs, Eq(Sym(n, t.S), t))
+	}
+	ob.Assume = append(append([]*Term{}, saved...), defs...)
+	txt := p.smtTextX(ob, uses, false)
+	ob.Assume = saved
+	return txt, names
+}
+
+type sliceIn struct {
+	name            string
+	elemBits        int
+	obj             int64
+	off, ln, cp     int64
+	cells           map[int64]*big.Int // absolute offset -> value
+	isString        bool
+	path            string // Go expression to assign to (param name or p.field)
+	goType          string
+}
+
+func (p *Prog) extractInputs(r *Result, uses []string) (map[string]interface{}, bool) {
+	ob := r.Ob
+	fx := ob.Fx
+	if fx == nil || fx.Entry == nil {
+		return nil, false
+	}
+	var reqs []gvReq
+	add := func(n string, t *Term) { reqs = append(reqs, gvReq{n, t}) }
+	type slot struct {
+		prefix string
+		v      Val
+		expr   string
+	}
+	var slices []slot
+	var scalars []slot
+	var structs []slot
+	var collect func(prefix, expr string, v Val, depth int)
+	collect = func(prefix, expr string, v Val, depth int) {
+		switch u := v.T.Underlying().(type) {
+		case *types.Slice:
+			if b, ok := u.Elem().Underlying().(*types.Basic); ok && b.Info()&types.IsInteger != 0 {
+				slices = append(slices, slot{prefix, v, expr})
+				add(prefix+".obj", v.L[0])
+				add(prefix+".off", v.L[1])
+				add(prefix+".len", v.L[2])
+				add(prefix+".cap", v.L[3])
+				k := leafKinds(u.Elem())[0]
+				for i := int64(0); i < replayCells; i++ {
+					add(fmt.Sprintf("%s[%d]", prefix, i), fx.Entry.LoadCell(k, v.L[0], offAdd(v.L[1], i)))
+				}
+			}
+		case *types.Basic:
+			if u.Info()&types.IsString != 0 {
+				slices = append(slices, slot{prefix, v, expr})
+				add(prefix+".obj", v.L[0])
+				add(prefix+".off", v.L[1])
+				add(prefix+".len", v.L[2])
+				for i := int64(0); i < replayCells; i++ {
+					add(fmt.Sprintf("%s[%d]", prefix, i), fx.Entry.LoadCell(K8, v.L[0], offAdd(v.L[1], i)))
+				}
+			} else if len(v.L) == 1 {
+				scalars = append(scalars, slot{prefix, v, expr})
+				add(prefix, v.L[0])
+			}
+		case *types.Pointer:
+			add(prefix+".obj", v.L[0])
+			if st, ok := u.Elem().Underlying().(*types.Struct); ok && depth < 2 && !isBigInt(u.Elem()) {
+				structs = append(structs, slot{prefix, v, expr})
+				for i := 0; i < st.NumFields(); i++ {
+					ft := st.Field(i).Type()
+					if slots(ft) > 64 {
+						continue
+					}
+					fv := fx.Entry.Load(ft, v.L[0], offAdd(v.L[1], fieldOffset(st, i)))
+					fv.T = ft
+					collect(prefix+"."+st.Field(i).Name(), expr+"."+st.Field(i).Name(), fv, depth+1)
+				}
+			}
+		case *types.Array:
+			if b, ok := u.Elem().Underlying().(*types.Basic); ok && b.Info()&types.IsInteger != 0 && u.Len() <= 64 {
+				for i := int64(0); i < u.Len(); i++ {
+					scalars = append(scalars, slot{fmt.Sprintf("%s[%d]", prefix, i), Val{T: u.Elem(), L: v.L[i : i+1]}, fmt.Sprintf("%s[%d]", expr, i)})
+					add(fmt.Sprintf("%s[%d]", prefix, i), v.L[i])
+				}
+			}
+		}
+	}
+	for _, pi := range ob.Inputs {
+		collect(pi.Name, pi.Name, pi.V, 0)
+	}
+	// prefer models small enough to rebuild: short slices at small offsets
+	var small []*Term
+	for _, s := range slices {
+		capT := s.v.L[len(s.v.L)-1]
+		small = append(small, BVOp("bvule", capT, BVConst(replayCells-32, 64)), BVOp("bvule", s.v.L[1], BVConst(16, 64)))
+	}
+	vals, solver, ok := p.modelValues(ob, uses, reqs, 30, small)
+	if !ok {
+		vals, solver, ok = p.modelValues(ob, uses, reqs, 30, nil)
+	}
+	if !ok {
+		return nil, false
+	}
+	m := map[string]interface{}{"model_solver": solver}
+	ints := map[string]string{}
+	for k, v := range vals {
+		ints[k] = v.String()
+	}
+	m["values"] = ints
+	return m, true
+}
+
+// replayOnCode builds and runs the in-package test.
 func (p *Prog) replayOnCode(r *Result, model map[string]interface{}) (map[string]interface{}, bool) {
-	return nil, false
+	ob := r.Ob
+	fx := ob.Fx
+	out := map[string]interface{}{}
+	vals := map[string]*big.Int{}
+	for k, v := range model["values"].(map[string]string) {
+		b, _ := new(big.Int).SetString(v, 10)
+		vals[k] = b
+	}
+	fn := fx.Fn
+	pkgDir := filepath.Join(p.repo, strings.TrimPrefix(strings.TrimPrefix(fn.Pkg.Pkg.Path(), modPath), "/"))
+	src, err := p.genHarness(fx, vals)
+	if err != nil {
+		out["harness_error"] = err.Error()
+		return out, false
+	}
+	tmp, _ := os.MkdirTemp("", "gvc-replay-")
+	defer os.RemoveAll(tmp)
+	tf := filepath.Join(tmp, "zz_gvc_replay_test.go")
+	os.WriteFile(tf, []byte(src), 0o644)
+	ov := map[string]map[string]string{"Replace": {filepath.Join(pkgDir, "zz_gvc_replay_test.go"): tf}}
+	ob2, _ := json.Marshal(ov)
+	ovf := filepath.Join(tmp, "ov.json")
+	os.WriteFile(ovf, ob2, 0o644)
+	cmd := exec.Command("go", "test", "-overlay", ovf, "-vet=off", "-count=1", "-timeout", "60s", "-v", "-run", "^TestGvcReplay$", ".")
+	cmd.Dir = pkgDir
+	cmd.Env = append(os.Environ(), "GOFLAGS=-mod=mod", "GOPROXY=off", "GOSUMDB=off", "GOTOOLCHAIN=local")
+	var buf bytes.Buffer
+	cmd.Stdout = &buf
+	cmd.Stderr = &buf
+	cmd.Run()
+	o := buf.String()
+	out["harness"] = src
+	idx := strings.Index(o, "GVCREPLAY ")
+	if idx < 0 {
+		out["run_output"] = truncate(o, 3000)
+		if strings.Contains(o, "panic: test timed out") {
+			out["observed"] = "the call did not return within 60 s"
+			if ob.Kind == "variant" {
+				return out, true
+			}
+		}
+		return out, false
+	}
+	line := o[idx+len("GVCREPLAY "):]
+	if nl := strings.Index(line, "\n"); nl >= 0 {
+		line = line[:nl]
+	}
+	var obs map[string]interface{}
+	if err := json.Unmarshal([]byte(line), &obs); err != nil {
+		out["run_output"] = truncate(o, 3000)
+		return out, false
+	}
+	out["observed"] = obs
+	panicked := obs["panic"] != nil && obs["panic"] != ""
+	switch ob.Kind {
+	case "bounds", "nil", "assert", "div", "panic", "pre":
+		if panicked {
+			out["verdict"] = "the real function panics on the model's input: " + fmt.Sprint(obs["panic"])
+			return out, true
+		}
+		out["verdict"] = "the real function did not panic on the model's input"
+		return out, false
+	case "post", "frame":
+		if panicked {
+			out["verdict"] = "the real function panicked on the model's input (" + fmt.Sprint(obs["panic"]) + ")"
+			return out, false
+		}
+		conf, why := p.compareFrameAndResults(fx, ob, vals, obs)
+		out["verdict"] = why
+		return out, conf
+	}
+	out["verdict"] = "obligation kind " + ob.Kind + " has no direct replay"
+	return out, false
+}
+
+// compareFrameAndResults decides confirmation for post/frame obligations from directly observable facts:
+// writes outside the function's modifies clause to caller memory, and aliasing of results with inputs.
+func (p *Prog) compareFrameAndResults(fx *Fx, ob *Obligation, vals map[string]*big.Int, obs map[string]interface{}) (bool, string) {
+	if ob.Kind == "frame" || strings.Contains(ob.Name, "#post#fresh") {
+		// any caller-visible byte that changed although it lies outside every input slice's [0,len) window
+		// or any result that shares memory with an input contradicts freshness / the frame
+		if ch, ok := obs["changed_outside_len"].([]interface{}); ok && len(ch) > 0 {
+			return true, fmt.Sprintf("caller memory changed behind an input slice: %v", ch)
+		}
+		if ch, ok := obs["changed_inside_len"].([]interface{}); ok && len(ch) > 0 && len(fx.C.Modifies) == 0 {
+			return true, fmt.Sprintf("caller memory changed inside an input slice although the contract modifies nothing: %v", ch)
+		}
+		if al, ok := obs["result_aliases_input"].([]interface{}); ok && len(al) > 0 && strings.Contains(ob.Name, "fresh") {
+			return true, fmt.Sprintf("a result that must be fresh shares its backing array with an input: %v", al)
+		}
+		return false, "no write outside the modifies clause observed on the model's input"
+	}
+	return false, "functional postcondition: outputs recorded, automatic comparison not available for this shape"
+}
+
+// genHarness writes the test that rebuilds the model's inputs and calls the function.
+func (p *Prog) genHarness(fx *Fx, vals map[string]*big.Int) (string, error) {
+	fn := fx.Fn
+	var sb strings.Builder
+	pkg := fn.Pkg.Pkg.Name()
+	fmt.Fprintf(&sb, "package %s\n\nimport (\n\t\"encoding/json\"\n\t\"fmt\"\n\t\"testing\"\n\t\"unsafe\"\n)\n\nvar _ = unsafe.Pointer(nil)\n\n", pkg)
+	sb.WriteString("func TestGvcReplay(t *testing.T) {\n")
+	get := func(k string) int64 {
+		if v, ok := vals[k]; ok {
+			if v.IsInt64() {
+				return v.Int64()
+			}
+			return int64(v.Uint64())
+		}
+		return 0
+	}
+	// group byte/word slices by model object
+	type sl struct {
+		prefix, expr, elem string
+		obj, off, ln, cp   int64
+		isStr              bool
+	}
+	var sls []sl
+	var pre []string
+	var args []string
+	var declare func(prefix, expr string, t types.Type, top bool) error
+	declare = func(prefix, expr string, t types.Type, top bool) error {
+		switch u := t.Underlying().(type) {
+		case *types.Slice:
+			b, ok := u.Elem().Underlying().(*types.Basic)
+			if !ok || b.Info()&types.IsInteger == 0 {
+				return fmt.Errorf("parameter %s: unsupported slice element type %v", prefix, u.Elem())
+			}
+			ln, cp := get(prefix+".len"), get(prefix+".cap")
+			if cp > replayCells || ln > cp || ln < 0 {
+				return fmt.Errorf("parameter %s: model needs len %d cap %d (limit %d)", prefix, ln, cp, replayCells)
+			}
+			sls = append(sls, sl{prefix, expr, types.TypeString(u.Elem(), func(*types.Package) string { return "" }), get(prefix + ".obj"), get(prefix + ".off"), ln, cp, false})
+		case *types.Basic:
+			switch {
+			case u.Info()&types.IsString != 0:
+				ln := get(prefix + ".len")
+				if ln > replayCells {
+					return fmt.Errorf("string too long")
+				}
+				bs := make([]byte, ln)
+				for i := int64(0); i < ln; i++ {
+					bs[i] = byte(get(fmt.Sprintf("%s[%d]", prefix, i)))
+				}
+				pre = append(pre, fmt.Sprintf("\t%s = %s(%q)\n", expr, types.TypeString(t, func(*types.Package) string { return "" }), string(bs)))
+			case u.Info()&types.IsBoolean != 0:
+				pre = append(pre, fmt.Sprintf("\t%s = %v\n", expr, get(prefix) != 0))
+			case u.Info()&types.IsInteger != 0:
+				v := vals[prefix]
+				if v == nil {
+					v = big.NewInt(0)
+				}
+				w := p.intWidth(t)
+				x := new(big.Int).Set(v)
+				if isSigned(t) {
+					x = toSigned(x, w)
+				}
+				pre = append(pre, fmt.Sprintf("\t%s = %s(%s)\n", expr, types.TypeString(t, func(*types.Package) string { return "" }), x.String()))
+			default:
+				return fmt.Errorf("parameter %s: unsupported basic type %v", prefix, t)
+			}
+		case *types.Pointer:
+			st, ok := u.Elem().Underlying().(*types.Struct)
+			if !ok || isBigInt(u.Elem()) {
+				return fmt.Errorf("parameter %s: unsupported pointer type %v", prefix, t)
+			}
+			if get(prefix+".obj") == 0 {
+				return nil // nil pointer
+			}
+			pre = append(pre, fmt.Sprintf("\t%s = new(%s)\n", expr, types.TypeString(u.Elem(), func(*types.Package) string { return "" })))
+			for i := 0; i < st.NumFields(); i++ {
+				ft := st.Field(i).Type()
+				if slots(ft) > 64 {
+					continue
+				}
+				if err := declare(prefix+"."+st.Field(i).Name(), expr+"."+st.Field(i).Name(), ft, false); err != nil {
+					return err
+				}
+			}
+		case *types.Array:
+			b, ok := u.Elem().Underlying().(*types.Basic)
+			if !ok || b.Info()&types.IsInteger == 0 || u.Len() > 64 {
+				return fmt.Errorf("parameter %s: unsupported array type %v", prefix, t)
+			}
+			for i := int64(0); i < u.Len(); i++ {
+				pre = append(pre, fmt.Sprintf("\t%s[%d] = %d\n", expr, i, get(fmt.Sprintf("%s[%d]", prefix, i))))
+			}
+		default:
+			return fmt.Errorf("parameter %s: unsupported type %v", prefix, t)
+		}
+		return nil
+	}
+	q := func(*types.Package) string { return "" }
+	for i, prm := range fn.Params {
+		name := fmt.Sprintf("a%d", i)
+		fmt.Fprintf(&sb, "\tvar %s %s\n", name, types.TypeString(prm.Type(), q))
+		if err := declare(prm.Name(), name, prm.Type(), true); err != nil {
+			return "", err
+		}
+		args = append(args, name)
+	}
+	// backing arrays per (object, element type)
+	type arr struct {
+		obj    int64
+		elem   string
+		lo, hi int64
+		name   string
+	}
+	arrs := map[string]*arr{}
+	var order []string
+	for _, s := range sls {
+		if s.obj == 0 {
+			continue
+		}
+		k := fmt.Sprintf("%d/%s", s.obj, s.elem)
+		a := arrs[k]
+		if a == nil {
+			a = &arr{obj: s.obj, elem: s.elem, lo: s.off, hi: s.off + s.cp, name: fmt.Sprintf("arr%d", len(order))}
+			arrs[k] = a
+			order = append(order, k)
+		}
+		if s.off < a.lo {
+			a.lo = s.off
+		}
+		if s.off+s.cp > a.hi {
+			a.hi = s.off + s.cp
+		}
+	}
+	for _, k := range order {
+		a := arrs[k]
+		if a.hi-a.lo > 4*replayCells {
+			return "", fmt.Errorf("model spreads slices of one object over %d cells", a.hi-a.lo)
+		}
+		fmt.Fprintf(&sb, "\t%s := make([]%s, %d)\n", a.name, a.elem, a.hi-a.lo)
+	}
+	for _, s := range sls {
+		if s.obj == 0 {
+			continue
+		}
+		a := arrs[fmt.Sprintf("%d/%s", s.obj, s.elem)]
+		for i := int64(0); i < s.cp && i < replayCells; i++ {
+			if v, ok := vals[fmt.Sprintf("%s[%d]", s.prefix, i)]; ok && v.Sign() != 0 {
+				fmt.Fprintf(&sb, "\t%s[%d] = %s\n", a.name, s.off-a.lo+i, v.String())
+			}
+		}
+	}
+	for _, l := range pre {
+		sb.WriteString(l)
+	}
+	for _, s := range sls {
+		if s.obj == 0 {
+			continue
+		}
+		a := arrs[fmt.Sprintf("%d/%s", s.obj, s.elem)]
+		fmt.Fprintf(&sb, "\t%s = %s[%d:%d:%d]\n", s.expr, a.name, s.off-a.lo, s.off-a.lo+s.ln, s.off-a.lo+s.cp)
+	}
+	// snapshots
+	for _, k := range order {
+		a := arrs[k]
+		fmt.Fprintf(&sb, "\tbefore_%s := append([]%s(nil), %s...)\n", a.name, a.elem, a.name)
+	}
+	// call
+	res := fn.Signature.Results()
+	var rnames []string
+	for i := 0; i < res.Len(); i++ {
+		rn := fmt.Sprintf("r%d", i)
+		rnames = append(rnames, rn)
+		fmt.Fprintf(&sb, "\tvar %s %s\n\t_ = %s\n", rn, types.TypeString(res.At(i).Type(), q), rn)
+	}
+	callee := fn.Name()
+	callArgs := args
+	if fn.Signature.Recv() != nil {
+		callee = args[0] + "." + fn.Name()
+		callArgs = args[1:]
+	}
+	if sig := fn.Signature; sig.Variadic() && len(callArgs) > 0 {
+		callArgs = append(append([]string{}, callArgs[:len(callArgs)-1]...), callArgs[len(callArgs)-1]+"...")
+	}
+	call := fmt.Sprintf("%s(%s)", callee, strings.Join(callArgs, ", "))
+	if len(rnames) > 0 {
+		call = strings.Join(rnames, ", ") + " = " + call
+	}
+	fmt.Fprintf(&sb, "\tpan := func() (p interface{}) {\n\t\tdefer func() { p = recover() }()\n\t\t%s\n\t\treturn nil\n\t}()\n", call)
+	sb.WriteString("\tout := map[string]interface{}{}\n\tif pan != nil {\n\t\tout[\"panic\"] = fmt.Sprint(pan)\n\t}\n")
+	sb.WriteString("\tvar chOut, chIn, alias []string\n")
+	// changed cells, classified by whether they lie inside some input slice's [0,len) window
+	for _, k := range order {
+		a := arrs[k]
+		fmt.Fprintf(&sb, "\tfor i := range %s {\n\t\tif %s[i] != before_%s[i] {\n\t\t\tinside := false\n", a.name, a.name, a.name)
+		for _, s := range sls {
+			if s.obj == a.obj && s.elem == a.elem {
+				fmt.Fprintf(&sb, "\t\t\tif i >= %d && i < %d {\n\t\t\t\tinside = true\n\t\t\t}\n", s.off-a.lo, s.off-a.lo+s.ln)
+			}
+		}
+		fmt.Fprintf(&sb, "\t\t\tif inside {\n\t\t\t\tchIn = append(chIn, fmt.Sprintf(\"%s[%%d]: %%v -> %%v\", i, before_%s[i], %s[i]))\n\t\t\t} else {\n\t\t\t\tchOut = append(chOut, fmt.Sprintf(\"%s[%%d]: %%v -> %%v\", i, before_%s[i], %s[i]))\n\t\t\t}\n\t\t}\n\t}\n", a.name, a.name, a.name, a.name, a.name, a.name)
+	}
+	for i := 0; i < res.Len(); i++ {
+		rn := rnames[i]
+		switch u := res.At(i).Type().Underlying().(type) {
+		case *types.Slice:
+			if b, ok := u.Elem().Underlying().(*types.Basic); ok && b.Info()&types.IsInteger != 0 {
+				fmt.Fprintf(&sb, "\tout[\"%s\"] = map[string]interface{}{\"len\": len(%s), \"cap\": cap(%s), \"isnil\": %s == nil, \"data\": fmt.Sprintf(\"%%x\", %s)}\n", rn, rn, rn, rn, rn)
+				for _, k := range order {
+					a := arrs[k]
+					if a.elem != types.TypeString(u.Elem(), q) {
+						continue
+					}
+					fmt.Fprintf(&sb, "\tif cap(%s) > 0 && len(%s) > 0 {\n\t\tp0 := uintptr(unsafe.Pointer(&%s[:1][0]))\n\t\tb0 := uintptr(unsafe.Pointer(&%s[0]))\n\t\tif p0 >= b0 && p0 < b0+uintptr(len(%s))*unsafe.Sizeof(%s[0]) {\n\t\t\talias = append(alias, \"%s shares the backing array of %s\")\n\t\t}\n\t}\n", rn, a.name, rn, a.name, a.name, a.name, rn, a.name)
+				}
+				continue
+			}
+			fmt.Fprintf(&sb, "\tout[\"%s\"] = fmt.Sprintf(\"%%v\", %s)\n", rn, rn)
+		case *types.Interface:
+			fmt.Fprintf(&sb, "\tout[\"%s\"] = map[string]interface{}{\"isnil\": %s == nil, \"value\": fmt.Sprintf(\"%%v\", %s), \"type\": fmt.Sprintf(\"%%T\", %s)}\n", rn, rn, rn, rn)
+		default:
+			fmt.Fprintf(&sb, "\tout[\"%s\"] = fmt.Sprintf(\"%%v\", %s)\n", rn, rn)
+		}
+	}
+	for _, k := range order {
+		a := arrs[k]
+		fmt.Fprintf(&sb, "\tout[\"after_%s\"] = fmt.Sprintf(\"%%v\", %s)\n\tout[\"before_%s\"] = fmt.Sprintf(\"%%v\", before_%s)\n", a.name, a.name, a.name, a.name)
+	}
+	sb.WriteString("\tout[\"changed_outside_len\"] = chOut\n\tout[\"changed_inside_len\"] = chIn\n\tout[\"result_aliases_input\"] = alias\n")
+	sb.WriteString("\tb, _ := json.Marshal(out)\n\tfmt.Println(\"GVCREPLAY \" + string(b))\n}\n")
+	_ = sort.Strings
+	return sb.String(), nil
 }
